@@ -266,7 +266,7 @@ type wTx struct {
 }
 
 type wBlock struct {
-	Back int   `json:"back"` // parent = previous block minus Back (0 = extend the previous block)
+	Back int   `json:"back"` // parent = the block Back positions before the previous one in the block list (0 = extend the previous block); positions, not ancestors
 	Skip int   `json:"skip,omitempty"`
 	CB   int   `json:"cb,omitempty"` // 0: proposer's own coinbase program; k>0: wallet program k-1
 	Txs  []wTx `json:"txs,omitempty"`
